@@ -16,6 +16,7 @@ TIERS = {
     "proto": ({"n": 2}, {"n": 24}),
     "own": ({"n": 120}, {"n": 4000}),
     "matrix": ({"shards": 4, "histories": 4, "length": 40}, {"shards": 16, "histories": 40, "length": 60}),
+    "extreme": ({"shards": 8, "histories": 25, "length": 60}, {"shards": 16, "histories": 300, "length": 80}),
     "world": ({"shards": 8, "histories": 30, "length": 60}, {"shards": 16, "histories": 500, "length": 80}),
     "world_mini": ({"shards": 4, "histories": 30, "length": 60}, {"shards": 16, "histories": 250, "length": 80}),
 }
@@ -62,10 +63,10 @@ def get_stream(name, seed, tier, b, fp):
         shutil.rmtree(d, ignore_errors=True)
         os.makedirs(d)
         meta = {"name": name, "dir": d, "prefixes": [], "params": params, "gen_s": 0.0, "model_s": 0.0}
-        if name.startswith("world") or name in ("matrix", "pages"):
+        if name.startswith("world") or name in ("matrix", "pages", "extreme"):
             variant = "miniwasm" if name == "world_mini" else "default"
             backend = "miniwasm" if name == "world_mini" else "osmosis"
-            mode = name if name in ("matrix", "pages") else "world"
+            mode = name if name in ("matrix", "pages", "extreme") else "world"
             jobs = [(b.exe[variant], mode, backend, seed * 1000 + k, params["histories"], params["length"],
                      os.path.join(d, "s%d" % k), b.model) for k in range(params["shards"])]
             with cf.ThreadPoolExecutor(max_workers=16) as ex:
